@@ -50,12 +50,14 @@ type Server struct {
 	kvServed       uint64
 	CatalogErr     map[string]bool // service names whose catalog lookup fails (fault injection)
 	healthWake     uint64          // bumped by WakeHealth: parked health queries return with the unchanged index
+	healthSeenAt   uint64          // index of the last health response sent
+	kvSeenAt       map[string]uint64
 	kvFail         bool            // every KV request fails with 500 (fault injection)
 	kvWake         uint64
 }
 
 func New() *Server {
-	s := &Server{nodes: map[string]*Node{}, inst: map[string]*Instance{}, kv: map[string]string{}, healthIndex: 10, kvIndex: 10, kvParkedAt: map[string]uint64{}, CatalogErr: map[string]bool{}}
+	s := &Server{nodes: map[string]*Node{}, inst: map[string]*Instance{}, kv: map[string]string{}, healthIndex: 10, kvIndex: 10, kvParkedAt: map[string]uint64{}, kvSeenAt: map[string]uint64{}, CatalogErr: map[string]bool{}}
 	s.cond = sync.NewCond(&s.mu)
 	s.srv = httptest.NewServer(http.HandlerFunc(s.handle))
 	// wake blocked queries regularly so that cancelled requests are noticed
@@ -118,6 +120,18 @@ func (s *Server) SetKVFail(fail bool) {
 	s.cond.Broadcast()
 }
 
+// Rewind makes both indexes go back (a Consul restored from a snapshot, a rebuilt cluster): the
+// data stays, the numbers restart low.  Parked queries return.
+func (s *Server) Rewind() {
+	s.mu.Lock()
+	s.healthIndex = 2 + s.healthIndex%3
+	s.kvIndex = 2 + s.kvIndex%3
+	s.healthWake++
+	s.kvWake++
+	s.mu.Unlock()
+	s.cond.Broadcast()
+}
+
 // Touch bumps the health index without changing anything (watchers wake up and re-read).
 func (s *Server) Touch() { s.Mutate(func() {}) }
 
@@ -158,6 +172,14 @@ func (s *Server) Quiesced(kvPrefix string) bool {
 	s.mu.Lock()
 	defer s.mu.Unlock()
 	return s.healthParkedAt == s.healthIndex && s.kvParkedAt[strings.Trim(kvPrefix, "/")] == s.kvIndex
+}
+
+// Seen reports whether the current state of both tables has been sent to the watchers at least
+// once (whether or not they are parked on it now).
+func (s *Server) Seen(kvPrefix string) bool {
+	s.mu.Lock()
+	defer s.mu.Unlock()
+	return s.healthSeenAt == s.healthIndex && s.kvSeenAt[strings.Trim(kvPrefix, "/")] == s.kvIndex
 }
 
 // KVQuiesced: the KV watcher is parked on the current KV index.
@@ -205,7 +227,7 @@ func (s *Server) health(w http.ResponseWriter, r *http.Request) {
 	idx := waitIndex(r)
 	s.mu.Lock()
 	wake := s.healthWake
-	for idx >= s.healthIndex && wake == s.healthWake && r.Context().Err() == nil {
+	for idx == s.healthIndex && wake == s.healthWake && r.Context().Err() == nil {
 		s.healthParkedAt = idx
 		s.cond.Wait()
 	}
@@ -233,6 +255,7 @@ func (s *Server) health(w http.ResponseWriter, r *http.Request) {
 	}
 	index := s.healthIndex
 	s.healthServed++
+	s.healthSeenAt = index
 	s.mu.Unlock()
 	w.Header().Set("X-Consul-Index", strconv.FormatUint(index, 10))
 	w.Header().Set("Content-Type", "application/json")
@@ -290,7 +313,8 @@ func (s *Server) kvGet(w http.ResponseWriter, r *http.Request, key string) {
 	_, recurse := r.URL.Query()["recurse"]
 	s.mu.Lock()
 	wake := s.kvWake
-	for idx >= s.kvIndex && wake == s.kvWake && !s.kvFail && r.Context().Err() == nil {
+	// (an index from the future - the server was restored from a snapshot - is answered at once)
+	for idx == s.kvIndex && wake == s.kvWake && !s.kvFail && r.Context().Err() == nil {
 		s.kvParkedAt[key] = idx
 		s.cond.Wait()
 	}
@@ -317,6 +341,7 @@ func (s *Server) kvGet(w http.ResponseWriter, r *http.Request, key string) {
 	}
 	index := s.kvIndex
 	s.kvServed++
+	s.kvSeenAt[key] = index
 	s.mu.Unlock()
 	w.Header().Set("X-Consul-Index", strconv.FormatUint(index, 10))
 	if len(out) == 0 {
